@@ -15,7 +15,8 @@ LEVEL_TEXT = ("Exhaustive over all 21 844 vertices of the orders k = 1..7 (succe
               "numpy integer index types; the accessor invariant is evaluated on every graph the library builds or converts in "
               "the workload.")
 LEVEL_NOTE = "Trusts string slicing/concatenation on k-mers and base-4 Horner evaluation in vlib/graphs.py."
-PLAN = {"quick": dict(shards=16, budget=40), "thorough": dict(shards=16, budget=300)}
+PLAN = {"quick": dict(shards=17, budget=40), "thorough": dict(shards=17, budget=300)}
+SPECIAL_SHARD = True  # the last shard runs files of the repository's own suite in-process under the contracts
 EXHAUSTIVE = ["all vertices of orders 1..7"]
 RULE = ("For every k = 1..7 and every v < 4^k: obtain_latters(v, k) == [index(kmer[1:] + c) for c in ACGT], obtain_formers(v, k) "
         "== [index(c + kmer[:-1]) for c in ACGT], u in formers(v) <=> v in latters(u), number_to_dna(v, k) == kmer, "
@@ -68,6 +69,9 @@ def finish(ctx):
 
 def generate(ctx):
     rng = ctx.rng
+    if ctx.special:
+        yield "repo_tests", dict(files=ctx.pick(['tests/test_generating.py', 'tests/test_accessor_vs_latter_map.py', 'tests/test_accessor_vs_matrix.py'], ['tests/test_generating.py', 'tests/test_accessor_vs_latter_map.py', 'tests/test_accessor_vs_matrix.py']))
+        return
     i = 0
     for k in range(1, 8):
         for v0 in range(0, 4 ** k, 64):
@@ -258,11 +262,27 @@ def check_vertex(ctx, case):
     _vertex(ctx, import_dsw(), case["k"], case["v"], case["typ"])
 
 
-CHECKS = {"complete_sequence": check_complete_sequence, "vertex": check_vertex, "vertices": check_vertices, "sampled": check_sampled, "complete": check_complete, "library_graphs": check_library_graphs}
+def check_repo_tests(ctx, case):
+    """The repository's own tests, in-process, with this property's contracts installed."""
+    from vlib.coding import run_repo_tests
+    rc, n = run_repo_tests(ctx, case["files"])
+    ctx.mon("contract-evaluations-inside-repo-tests", n)
+    if rc is None:
+        ctx.cls("repo-tests|missing")
+        return
+    ctx.cls("repo-tests|run")
+    if rc != 0:
+        ctx.fail("repo-tests-under-contracts", "pytest exit %s on %s with the contracts installed (a contract fired inside the repository's own tests, or a test failed)" % (rc, case["files"]))
+    ctx.done("repo_tests", case, n > 0)
+
+
+CHECKS = {"repo_tests": check_repo_tests, "complete_sequence": check_complete_sequence, "vertex": check_vertex, "vertices": check_vertices, "sampled": check_sampled, "complete": check_complete, "library_graphs": check_library_graphs}
 
 
 def floors(agg, tier):
     out = []
+    if agg["monitors"].get("contract-evaluations-inside-repo-tests", 0) < (3 if tier == "quick" else 3):
+        out.append("repository tests ran %d contract evaluations" % agg["monitors"].get("contract-evaluations-inside-repo-tests", 0))
     c, m = agg["classes"], agg["monitors"]
     for k in range(1, 8):
         if c.get("exhaustive|k=%d" % k, 0) != 4 ** k:
